@@ -197,12 +197,39 @@ impl Rec {
     }
 }
 
+/// Record identity is insensitive to the order of the strings of a TXT record: a peer that
+/// builds its TXT record from a hash map emits them in an order nobody can predict.
+pub fn norm_rdata(rtype: u16, rdata: Vec<u8>) -> Vec<u8> {
+    if rtype != t::TXT {
+        return rdata;
+    }
+    let mut strs: Vec<&[u8]> = Vec::new();
+    let mut pos = 0;
+    while pos < rdata.len() {
+        let l = rdata[pos] as usize;
+        if pos + 1 + l > rdata.len() {
+            return rdata;
+        }
+        strs.push(&rdata[pos..pos + 1 + l]);
+        pos += 1 + l;
+    }
+    strs.sort();
+    strs.concat()
+}
+
 #[derive(Clone, Debug, PartialEq, Eq, Hash, PartialOrd, Ord, Serialize, Deserialize)]
 pub struct RecKey {
     pub owner: Labels,
     pub class: u16,
     pub rtype: u16,
     pub rdata: Vec<u8>,
+}
+
+impl RecKey {
+    /// identity modulo the order of TXT strings (see `norm_rdata`)
+    pub fn norm(&self) -> RecKey {
+        RecKey { owner: self.owner.clone(), class: self.class, rtype: self.rtype, rdata: norm_rdata(self.rtype, self.rdata.clone()) }
+    }
 }
 
 #[derive(Clone, Debug, PartialEq, Eq, Hash, Serialize, Deserialize)]
